@@ -65,6 +65,14 @@ CHECKS.update({
                "Lean 4 proof of the type/container invariant + counterexample theorem + three-generation differential correspondence", "6/C07"),
 })
 
+CHECKS.update({
+    "C08": chk("Partial proof with a recorded finding (D12). Proved: gen_written_globals (the regenerated static fact: exactly the three component accumulators are written on paths reachable from the decode/encode entry points), expand_other_pure, csd/cycles/power_invalid_pure, containerAdd_other_pure (only a record message with a valid accumulated source reads or writes them), decode_history_counterexample (D12). Encode's model has no access to package state. Process freshness and map-iteration randomness are runtime behaviour: exercised by random call histories compared with the model threading the accumulators, with the same call alone and in fresh processes, and by repeated Encode of equal Files." + CORR,
+               "Lean 4 proof over the model with explicit Globals + static write-set fact regenerated from source + call-history / fresh-process / repeat correspondence", "6/C08"),
+    "C09": chk("Partial: proof over a shared-state model, not of the binary. Proved: interleaving_keeps_memory / local_step_pure / runAlone_local (calls that do not touch the accumulators cannot influence each other under any schedule), race_counterexample (lost update on a package-level accumulator, D12), gen_written_globals (static write-set fact). The Go memory model, scheduler and the race detector's coverage are outside Lean: the real entry points are run concurrently under the race detector (2-32 goroutines, shared inputs) and compared with the sequential baseline on every run.",
+               "Lean 4 proof over a small-step interleaving model + static write-set fact + race-detector runs of the real entry points", "6/C09",
+               note="Trusted: the Go race detector and the scheduler's coverage of interleavings; the shared-state model abstracts accumulate as a non-atomic read followed by a write. " + NOTE_COMMON),
+})
+
 NOT_YET = {}
 
 def main():
